@@ -213,4 +213,100 @@ def step (st : State) : Step → State
 
 def run (st : State) (steps : List Step) : State := steps.foldl step st
 
+/-! ### calls and events that END a send side where it is, or touch handles only
+
+`Step` holds the calls that write.  The application and the peer can do more:
+
+* `stop_stream(code)` — h3 resets the send side (RESET_STREAM);
+* the peer's STOP_SENDING — the call in progress fails with `StreamTerminated`, so does every later
+  one: nothing more is written;
+* a call abandoned in mid-write (its future dropped together with the handle; outside R-14, but the
+  bytes written so far stay written);
+* `stop_sending(code)` and the peer's RESET_STREAM — the RECEIVE side; `split` — the same stream
+  behind two handles; `SendRequest::clone` — another handle whose `send_grease_frame` flag is a COPY
+  (every handle cloned before its first request sends a grease frame of its own).
+
+In all of the first three the stream keeps the bytes it has, possibly ending inside a frame, and
+never changes again: it is moved from `st.streams` to `frozen`.  Steps of `Step` that name a frozen
+stream (or would create one with its id) do nothing. -/
+
+structure XState where
+  st : State
+  /-- send sides that have ended where they were; the code if it was h3 that reset the stream -/
+  frozen : List (Nat × Stream × Option Nat) := []
+  /-- `send_grease_frame` of every `SendRequest` handle (handle 0 = the one `build` returned; its
+      flag is `st.connGrease` until the first `cloneSender`) -/
+  handles : List Bool := []
+deriving Repr, DecidableEq
+
+inductive XStep where
+  | api (s : Step)
+  /-- client `send_request` through handle `h` -/
+  | sendRequestVia (h : Nat) (sid : Nat) (fs : Bytes)
+  /-- `SendRequest::clone` of handle `h` -/
+  | cloneSender (h : Nat)
+  /-- `RequestStream::stop_stream(code)` -/
+  | stopStream (sid code : Nat)
+  /-- STOP_SENDING from the peer -/
+  | peerStop (sid code : Nat)
+  /-- the call in progress on `sid` and its handle are dropped -/
+  | abandon (sid : Nat)
+  | stopSending (sid code : Nat)
+  | peerReset (sid code : Nat)
+  | split (sid : Nat)
+deriving Repr, DecidableEq
+
+/-- the stream a writing step names (`goaway`: the control stream) -/
+def Step.target (server : Bool) : Step → Nat
+  | .sendRequest sid _ => sid
+  | .acceptRequest sid => sid
+  | .sendHeaders sid _ => sid
+  | .sendData sid _ => sid
+  | .finish sid _ => sid
+  | .goaway _ => uniId server 0
+  | .greaseStream sid _ _ => sid
+  | .poll sid _ => sid
+
+def isFrozen (x : XState) (sid : Nat) : Bool := x.frozen.any (fun e => e.1 == sid)
+
+/-- the send side of `sid` ends where it is -/
+def freeze (x : XState) (sid : Nat) (code : Option Nat) : XState :=
+  { x with
+    st := { x.st with streams := x.st.streams.filter (fun e => e.1 != sid) },
+    frozen := x.frozen ++ (x.st.streams.filter (fun e => e.1 == sid)).map
+      (fun e => (e.1, { e.2 with cur := none, finAfter := false }, code)) }
+
+/-- `stop_stream` on a send side that had ended already (the peer's STOP_SENDING): h3 still resets
+    it; the first code stays (`reset` is idempotent in the transport) -/
+def resetCode (x : XState) (sid code : Nat) : XState :=
+  { x with frozen := x.frozen.map (fun e =>
+      if e.1 == sid && e.2.2.isNone then (e.1, e.2.1, some code) else e) }
+
+/-- the handles' flags once there is more than one handle -/
+def handleFlags (x : XState) : List Bool := if x.handles.isEmpty then [x.st.connGrease] else x.handles
+
+def setFlag (l : List Bool) (h : Nat) (b : Bool) : List Bool := l.set h b
+
+def xstep (x : XState) : XStep → XState
+  | .api s => if isFrozen x (s.target x.st.server) then x else { x with st := step x.st s }
+  | .sendRequestVia h sid fs =>
+    if isFrozen x sid then x
+    else
+      let g := (handleFlags x).getD h false
+      let st' := step { x.st with connGrease := g } (.sendRequest sid fs)
+      -- the flag of handle `h` is cleared exactly when the request was written
+      let sent := hasStream st'.streams sid && !hasStream x.st.streams sid
+      { x with st := st', handles := setFlag (handleFlags x) h (if sent then false else g) }
+  | .cloneSender h =>
+    let fl := handleFlags x
+    { x with handles := fl ++ [fl.getD h false] }
+  | .stopStream sid code => if sid % 4 = 0 then resetCode (freeze x sid (some code)) sid code else x
+  | .peerStop sid _ => freeze x sid none
+  | .abandon sid => freeze x sid none
+  | .stopSending _ _ => x
+  | .peerReset _ _ => x
+  | .split _ => x
+
+def xrun (x : XState) (steps : List XStep) : XState := steps.foldl xstep x
+
 end H3.SendSide
